@@ -416,6 +416,16 @@ package eval
 //@ macro (ISOR $n) (and (or (= (KIND $n) 3) (= (KIND $n) 4)) (or (= (p_string (fld $n value)) "or") (= (p_string (fld $n value)) "|") (= (p_string (fld $n value)) "||")))
 //@ macro (HAS $params $v) (exists ((j Int)) (and (<= (off $params) j) (< j (+ (off $params) (len $params))) (= (select (arr $params) j) $v)))
 
+// the two predicates every pass and the TryEval proxy use to recognise and / or (with all their aliases); inlined into
+// their callers, and pinned here on their own: an operator or fast-operator node whose name is one of the three spellings
+//@ func isAndOpNode C01 C03 C04
+//@   inline
+//@   requires [node] (and (not (= $n 0)) (=> (or (= (KIND $n) 3) (= (KIND $n) 4)) (is.string (fld $n value))))
+//@   ensures [and-and-its-aliases] (= $ret0 (ISAND $n))
+//@ func isOrOpNode C01 C03 C04
+//@   inline
+//@   requires [node] (and (not (= $n 0)) (=> (or (= (KIND $n) 3) (= (KIND $n) 4)) (is.string (fld $n value))))
+//@   ensures [or-and-its-aliases] (= $ret0 (ISOR $n))
 //@ func executeOperatorProxy C04 C05
 //@   requires [node] (and (not (= $n 0)) (not (= (fld $n operator) 0)) (=> (or (= (KIND $n) 3) (= (KIND $n) 4)) (is.string (fld $n value))))
 //@   ensures [and-false] (=> (and (ISAND $n) (old (HAS $params (V_bool false)))) (and (= $ret0 (V_bool false)) (= $ret1 ENil) (= (heap dyn.n) (old (heap dyn.n)))))
@@ -1319,6 +1329,15 @@ package eval
 //@   ensures [in-range] (=> (< $key (len $s)) (and (= $ret1 ENil) (= $ret0 (idx $s $key))))
 //@   ensures [out-of-range] (=> (>= $key (len $s)) (not (= $ret1 ENil)))
 //@   assigns next E_any
+//@ func SliceVarFetcher.Set C11 C06
+//@   requires [non-negative-key] (>= $key 0)
+//@   ensures [in-range-stores] (=> (< $key (len $s)) (and (= $ret0 ENil) (= (idx $s $key) $val)
+//@        (forall ((j Int)) (! (=> (not (= j (+ (off $s) $key))) (= (select (arr $s) j) (select (old (arr $s)) j))) :pattern ((select (arr $s) j))))))
+//@   ensures [out-of-range-refused] (=> (>= $key (len $s)) (and (not (= $ret0 ENil)) (= (arr $s) (old (arr $s)))))
+//@ func MapVarFetcher.Set C11 C06
+//@   requires [map] (not (= $s 0))
+//@   ensures [bound] (and (= $ret0 ENil) (mapin $s $key) (= (mapval $s $key) $val)
+//@        (forall ((k Int)) (! (=> (not (= k $key)) (and (= (mapin $s k) (old (mapin $s k))) (= (mapval $s k) (old (mapval $s k))))) :pattern ((mapin $s k)))))
 //@ func SliceVarFetcher.Cached C11 C06
 //@   ensures [in-range] (= $ret0 (< $key (len $s)))
 //@   assigns
